@@ -308,8 +308,15 @@ func (w *world) checkFaultConservation() {
 	// them; it never adds anything and never costs another process its counts.
 	failed := map[*simrt.Proc]bool{}
 	for _, fc := range w.s.CallLog {
-		if fc.Injected && fc.Proc != nil {
+		// injected or not (a directory found as a regular file, a week-end file
+		// that is a directory, a header that no longer matches): a call that failed
+		if (fc.Injected || fc.Err != nil) && fc.Proc != nil {
 			failed[fc.Proc] = true
+		}
+	}
+	for _, pr := range w.procs {
+		if pr.f.VerifErr() != nil || !pr.fileOpen() {
+			failed[pr.p] = true
 		}
 	}
 	for n, b := range w.begun {
